@@ -52,6 +52,13 @@ fn main() {
                 Err(e) => println!("err\t{}", format!("{e:#}").replace('\n', " ")),
             }
         }
+        "compiledir" => {
+            // Compile::directory over a directory tree: prints "ok" or "err\t<message>"
+            match Compile::directory(&args[2]).run() {
+                Ok(()) => println!("ok"),
+                Err(e) => println!("err\t{}", format!("{e:#}").replace('\n', " ")),
+            }
+        }
         "ast" => {
             let text = std::fs::read_to_string(&args[2]).expect("read grammar");
             match Grammar::from_str(&text) {
